@@ -82,7 +82,12 @@ func zxFSReset() {
 	zxOps = nil
 	zxOpCount = 0
 	zxCrashAt = 0
+	zxShortRead = 0
 }
+
+// zxShortRead > 0: (*os.File).Read hands back at most that many bytes per call (io.Reader
+// contract: "Read reads up to len(b) bytes"; callers that need a full buffer use io.ReadFull).
+var zxShortRead int
 
 // zxOp marks a mutating file-system operation (a potential crash point).
 func zxOp(what string) {
@@ -226,6 +231,9 @@ func zxFileRead(f *os.File, b []byte) (int, error) {
 	}
 	if h.pos >= len(h.f.data) {
 		return 0, io.EOF
+	}
+	if zxShortRead > 0 && len(b) > zxShortRead {
+		b = b[:zxShortRead]
 	}
 	n := copy(b, h.f.data[h.pos:])
 	h.pos += n
